@@ -82,7 +82,10 @@ CLASS NAMES (program.classes / Def.flags)
         alias-of-imported-struct-field explicit-padding needs-padding zero-length prefix-names big
 OPT_IN classes (never produced unless listed in ``allow``; each is tied to a known compiler defect)
     "alias-of-imported-struct" (F16 emission order)   "alias-of-imported-struct-field" (F15 TypeError in the parser)
-    "struct-contains-message" (F16)   "string-special" (F22)   "prefix-names" (F20)   "zero-length" (F21)
+    "struct-contains-message" (F16)   "string-special" (F22)   "prefix-names" (F20)
+    "zero-length" is still accepted in ``allow`` but generates nothing any more: since the repository's fix for F21
+    an array length < 1 is rejected (RTMASyntaxError), so it is not part of any well-formed program.
+    (F15, F16, F20, F22 are repaired in /repo as of 2026-10-04; the classes stay opt-in so that callers decide.)
 """
 from __future__ import annotations
 
@@ -1035,7 +1038,7 @@ class _Builder:
     # ---- names and ids -------------------------------------------------------------------------
     def fresh_name(self) -> str:
         ch = self.ch
-        if "prefix-names" in self.allow and ch.chance(0.15):
+        if "prefix-names" in self.allow and ch.chance(0.04):
             for cand in ch.shuffled(_PREFIX_TRAPS):
                 if cand not in self.names:
                     self.names.add(cand)
@@ -1344,10 +1347,7 @@ class _Builder:
             length, ltext = None, None
             if ch.chance(0.4):
                 room = (budget - off) // es
-                if "zero-length" in self.allow and ch.chance(0.1):
-                    length, ltext = 0, "0"
-                    fl.add("zero-length")
-                elif consts and ch.chance(0.35):
+                if consts and ch.chance(0.35):
                     c = ch.choice(consts)
                     ltext, length = self.expr_over(c.name, c.value, limit=max(1, room))
                     if length > room:
@@ -1660,7 +1660,12 @@ def build_layout_program(ch: Chooser, auto_pad: Optional[bool] = None, import_co
         for _ in range(ch.weighted([(0, 3), (1, 2), (2, 1)])):
             n = ctx.fresh_name()
             prev = [a for a in an_size if prog_has_alias(specs, a)]
-            if prev and ch.chance(0.3):
+            st_imp = [d.name for s_ in order[:si] for d in s_.defs if d.kind == "struct" and d.name in an_size]
+            if st_imp and ch.chance(0.5):
+                t = ch.choice(st_imp)
+                fl = ["alias-of-imported-struct"]
+                classes.add("alias-of-imported-struct")
+            elif prev and ch.chance(0.3):
                 t = ch.choice(prev)
                 fl = ["alias-of-alias"]
             else:
@@ -2435,12 +2440,25 @@ def scratch_dir(prefix: str = "defgen") -> str:
     return tempfile.mkdtemp(prefix=prefix + "-", dir=base)
 
 
-def parse_program(program: Program, dirpath: Optional[str] = None, keep: bool = False) -> ParseOutcome:
+class _ParseTimeout(BaseException):
+    pass
+
+
+def parse_program(program: Program, dirpath: Optional[str] = None, keep: bool = False, timeout: float = 60.0) -> ParseOutcome:
     """Materialise the program (in a fresh scratch directory unless ``dirpath`` is given) and run the real
-    ``Parser(**options).parse(root)``.  Never raises for parser failures: the exception is in the outcome."""
+    ``Parser(**options).parse(root)``.  Never raises for parser failures: the exception is in the outcome.
+    A parse (normally 2-60 ms) that is still running after ``timeout`` seconds is interrupted (SIGALRM, main thread
+    only) and reported as outcome "Timeout" - callers count that as inconclusive, never as a verdict."""
     import logging
     import shutil
+    import signal
+    import threading
     from pyrtma.parser import Parser
+
+    use_alarm = timeout and threading.current_thread() is threading.main_thread() and hasattr(signal, "setitimer")
+
+    def _on_alarm(signum, frame):
+        raise _ParseTimeout()
 
     own = dirpath is None
     d = scratch_dir() if own else dirpath
@@ -2448,14 +2466,23 @@ def parse_program(program: Program, dirpath: Optional[str] = None, keep: bool = 
     try:
         root = program.write(d)
         ps = Parser(**program.compile_kwargs())
+        prev = None
         try:
+            if use_alarm:
+                prev = signal.signal(signal.SIGALRM, _on_alarm)
+                signal.setitimer(signal.ITIMER_REAL, timeout)
             ps.parse(root)
             out = ParseOutcome("ok", ps, None, root)
+        except _ParseTimeout:
+            out = ParseOutcome("Timeout", None, None, root)
         except BaseException as e:  # noqa
             if isinstance(e, (KeyboardInterrupt, SystemExit)):
                 raise
             out = ParseOutcome(type(e).__name__, None, e, root)
         finally:
+            if use_alarm:
+                signal.setitimer(signal.ITIMER_REAL, 0)
+                signal.signal(signal.SIGALRM, prev)
             for h in list(ps.logger.handlers):
                 ps.logger.removeHandler(h)
             logging.Logger.manager.loggerDict.pop(ps.logger.name, None)
